@@ -15,6 +15,6 @@ std::string first_word(const std::string& line);
 void clock_jump(RunCtx& ctx, uint64_t target);
 uint32_t clock_now();
 
-Model small_or_drawn_model(RunCtx& ctx, Rng& rng, GenCfg& cfg);
+Model small_or_drawn_model(RunCtx& ctx, Rng& rng, GenCfg& cfg, bool allow_dynamic = true);
 
 }  // namespace sim
